@@ -495,6 +495,15 @@ func (g *ProofGen) tmCases(n int) {
 		vctx := ctx.WithBlockTime(now)
 		hh := clienttypes.NewHeight(0, h)
 		cstore := ck.ClientStore(vctx, a.ChainName)
+		if tmcs, ok := cs.(*ibctmtypes.ClientState); ok && h == h2 && h1 < h2 && g.r.Chance(12) {
+			// the client state was rolled back (governance upgrade) to an earlier latest height while
+			// the consensus state of the later height is still stored: the proof height is above latest
+			rolled := *tmcs
+			rolled.LatestHeight = clienttypes.NewHeight(0, h1)
+			cs = &rolled
+			latest = h1
+			plabel += "+latest-rolled-back"
+		}
 		var err error
 		switch method {
 		case "commit":
